@@ -1,5 +1,5 @@
 (* C03 — eviction is least-recently-used first, minimal, and spares the new entry. *)
-Require Import LruV.A.SpecA LruV.A.InvA LruV.A.MonitorsA LruV.A.MonC03.
+Require Import LruV.A.SpecA LruV.A.InvA LruV.A.MonitorsA LruV.A.MonC03 LruV.A.OrderA LruV.A.HistoryA.
 Require Import LruV.B.StepB LruV.B.RefineLemmas LruV.B.OpsProps LruV.B.CorollariesB LruV.A.SpecA.
 
 (* `minimal_prefix l evd rest target` (A/SpecA.v): l = evd ++ rest, rest fits the target, evd is the
@@ -146,6 +146,8 @@ Proof. exact eject_pointer_level. Qed.
 Theorem C03_monitor_sound : forall E VS, 0 < E -> VS <= E -> forall s p o s' out evs,
   Inv E s -> wf_op E s p -> stepA E VS fixed s p o = Some (s', out, evs) -> c03_mon E s p s' = true.
 Proof. exact c03_mon_sound. Qed.
+Check C03_monitor_sound : forall E VS, 0 < E -> VS <= E -> forall s p o s' out evs,
+  Inv E s -> wf_op E s p -> stepA E VS fixed s p o = Some (s', out, evs) -> c03_mon E s p s' = true.
 
 (* the monitor is not trivially true: with limit 150, entries 1 and 2 of true size 72, an insertion of a 72-byte entry that
    leaves only the newcomer behind (both old entries gone although evicting entry 1 alone would have made room) is rejected *)
@@ -158,6 +160,25 @@ Example C03_monitor_rejects_over_eviction :
           {| ents := [mk 2; mk 3]; cur := 144; maxs := 150; tb := {| nb := 4; tombs := 0 |} |} = true.
 Proof. split; vm_compute; reflexivity. Qed.
 
+(* "LEAST-RECENTLY-USED FIRST" IN TERMS OF THE HISTORY: after any history, whatever an insertion evicts was last accessed before
+   every old entry that stays (`last_access` = the number of the last call that accessed the key; only the seven promoting
+   operations count).  General form (any minimal prefix of a sublist of the order: insertions, growing mutates, set_max_size):
+   A/HistoryA.v `evicted_are_least_recently_accessed`. *)
+Theorem C03_evicts_least_recently_accessed : forall E VS, 0 < E -> VS <= E -> forall h s k v o s' old evs,
+  Hist E VS h s -> kheap k + vheap v + E < W -> stepA E VS fixed s (Insert k v) o = Some (s', OInsOk old, evs) ->
+  forall a b, In a (kids (e_evicted evs)) -> In b (kids (ents s')) -> b <> kid k -> (last_access h a < last_access h b)%nat.
+Proof.
+  intros E VS HE HV h s k v o s' old evs HH Hwf Hstep a b Ha Hb Hbk.
+  pose proof (reach_inv E VS HE HV s (hist_reach E VS h s HH)) as HI.
+  destruct (C03_insert E VS HE HV s k v o s' old evs HI Hwf Hstep) as (rest & Hmp & Hents & _).
+  apply (evicted_are_least_recently_accessed E VS HE HV h s _ _ rest _ HH (remove_id_subl _ _) Hmp a b Ha).
+  rewrite Hents, kids_app in Hb. apply in_app_or in Hb as [Hb|[Hb|[]]]; [exact Hb|]. cbn [mk_entry ek] in Hb. congruence.
+Qed.
+(* and the entry peek_lru shows is the one whose last access is the oldest *)
+Theorem C03_lru_is_least_recently_accessed : forall E VS, 0 < E -> VS <= E -> forall h s e r, Hist E VS h s -> ents s = e :: r ->
+  forall q, In q (kids r) -> (last_access h (kid (ek e)) < last_access h q)%nat.
+Proof. exact lru_is_least_recently_accessed. Qed.
+
 Print Assumptions C03_insert.
 Print Assumptions C03_exact_fit.
 Print Assumptions C03_mutate.
@@ -165,3 +186,5 @@ Print Assumptions C03_set_max.
 Print Assumptions C03_only_when.
 Print Assumptions C03_pointer_level.
 Print Assumptions C03_monitor_sound.
+Print Assumptions C03_evicts_least_recently_accessed.
+Print Assumptions C03_lru_is_least_recently_accessed.
